@@ -731,6 +731,47 @@ def verify(prop, modnames, tier, seed, only=None):
             out['results'].append(rec)
         if r['clauses'] and not got_mustfail and r.get('normal_paths', 0) > 0:
             out['errors'].append('vacuity: no reachable normal exit in %s [%s]' % (r['key'], r['case']))
+    # lemmas over the contracts
+    tmo = QUICK_MS if tier == 'quick' else THOROUGH_MS
+    for lname, lm in S.LEMMAS.items():
+        if prop not in lm['props'] or (only and only not in lname):
+            continue
+        for vcname, thunk in lm['vcs']:
+            name = 'lemma:%s::%s' % (lname, vcname)
+            seen_names.add(name)
+            t1 = time.time()
+            try:
+                assumptions, goal = thunk()
+                sv = z3.Solver()
+                sv.set('timeout', tmo)
+                for a_ in assumptions:
+                    sv.add(a_)
+                sv.add(z3.Not(goal))
+                r_ = sv.check()
+                res_ = 'unsat' if r_ == z3.unsat else 'sat' if r_ == z3.sat else 'unknown'
+                mdl = str(sv.model())[:300] if r_ == z3.sat else None
+            except Exception:
+                res_, mdl = 'unknown', traceback.format_exc()[-300:]
+            ms = int((time.time() - t1) * 1000)
+            out['obligations'] += 1
+            out['solver_ms_total'] += ms
+            out['backends']['z3'] = out['backends'].get('z3', 0) + 1
+            rec = {'name': name, 'kind': 'lemma', 'result': res_, 'backend': 'z3', 'ms': ms,
+                   'paths': 1, 'over': list(lm['over'])}
+            if res_ == 'unsat':
+                out['discharged'] += 1
+            elif res_ == 'sat':
+                rec['model'] = mdl
+                if name in required:
+                    out['violations'].append({
+                        'obligation': name, 'what': 'lemma %s no longer holds over the contracts: %s' % (name, mdl),
+                        'input': None, 'key': name, 'solver_output': mdl})
+                else:
+                    out['undecided'] += 1
+            else:
+                out['undecided'] += 1
+            out['results'].append(rec)
+            out.setdefault('lemmas', []).append({'lemma': lname, 'vc': vcname, 'result': res_, 'over': list(lm['over'])})
     # anti-vacuity: required obligations that vanished
     missing = [n for n in required if n not in seen_names]
     if missing:
@@ -757,7 +798,7 @@ def verify(prop, modnames, tier, seed, only=None):
         'call sites and proved separately under their own names',
     ]
     out['wall_s'] = round(time.time() - t0, 2)
-    if not tasks:
+    if not tasks and not out['results']:
         out['errors'].append('no contracts registered for %s' % prop)
     return out
 
